@@ -55,6 +55,8 @@ pub struct Shared {
     pub count: AtomicUsize,
     pub child_allocs: AtomicUsize,
     pub child_frees: AtomicUsize,
+    /// the injected fault was delivered (in the parent or in the forked child)
+    pub fault_fired: AtomicUsize,
     pub recs: [Rec; NREC],
 }
 pub const NREC: usize = 8192;
@@ -189,7 +191,13 @@ pub fn set_fault(f: Option<Fault>) {
     unsafe {
         FAULT = f;
         COUNT = [0; 24];
+        if f.is_some() && !SH.is_null() {
+            (*SH).fault_fired.store(0, Ordering::SeqCst);
+        }
     }
+}
+pub fn fault_fired() -> bool {
+    unsafe { !SH.is_null() && (*SH).fault_fired.load(Ordering::SeqCst) != 0 }
 }
 
 /// called by every interposer before the real call; Some(errno) = fail now
@@ -205,6 +213,9 @@ pub fn fault_check(kind: u32) -> Option<i32> {
         }
         COUNT[kind as usize] += 1;
         if COUNT[kind as usize] == f.nth {
+            if !SH.is_null() {
+                (*SH).fault_fired.store(1, Ordering::SeqCst);
+            }
             Some(f.errno)
         } else {
             None
